@@ -132,6 +132,7 @@ class Interp:
         self.fields = {}
         self.decimal = decimal
         self.call_hooks = {}     # def-path -> fn(interp, node, argvals)
+        self.lazy_hooks = {}     # def-path -> fn(interp, node)  (arguments not evaluated)
         self.method_hooks = {}   # method name -> fn(interp, node, recvval, argvals)
         self.if_hook = None      # fn(interp, node, condvalue) -> True/False/None
         self.local_fns = {}      # other crate-local functions to inline: def-path -> body
@@ -139,6 +140,7 @@ class Interp:
         self.trace = []          # (kind, place, value, node) for writes
         self.unroll_limit = 64
         self.symbol_assumptions = {}
+        self.root_alias = {}     # local name -> name it aliases (e.g. closure param `bdf` -> `self`)
         self.bind_params()
 
     # -- environment ----------------------------------------------------------------------------
@@ -285,15 +287,23 @@ class Interp:
             return f(a, b)
         raise Unsupported(n, "binary op %s" % op)
 
+    def norm_place(self, pl):
+        if pl is None:
+            return None
+        root, _, rest = pl.partition(".")
+        if root in self.root_alias:
+            return self.root_alias[root] + ("." + rest if rest else "")
+        return pl
+
     def ev_Field(self, n):
         base = peel(n["e"])
-        pl = place(n)
+        pl = self.norm_place(place(n))
         if pl is not None and pl in self.fields:
             return self.fields[pl]
         if base.get("k") != "Local" or base["id"] not in self.env or isinstance(self.env.get(base["id"]), sp.Symbol):
             if pl is not None and base.get("k") in ("Local", "Field"):
                 # field of an abstract struct (self.dt): a named symbol
-                root = pl.split(".")[0]
+                root = (place(n) or pl).split(".")[0]
                 rootv = None
                 for i, nm in self.names.items():
                     if nm == root:
@@ -376,7 +386,7 @@ class Interp:
             self.trace.append(("local", l["name"], val, node))
             return
         if l.get("k") == "Field":
-            pl = place(l)
+            pl = self.norm_place(place(l))
             if pl is None:
                 raise Unsupported(node, "assignment to non-place")
             self.fields[pl] = val
@@ -396,7 +406,7 @@ class Interp:
             fp = peel(f)
             if fp.get("k") == "Local" and isinstance(self.env.get(fp["id"]), ClosureVal):
                 return self.apply_closure(self.env[fp["id"]], [self.ev(a) for a in n["args"]], n)
-            pl = place(f)
+            pl = self.norm_place(place(f))
             if pl is None:
                 raise Unsupported(n, "call of a non-place callable")
             args = [self.ev(a) for a in n["args"]]
@@ -405,6 +415,13 @@ class Interp:
         if d is None:
             raise Unsupported(n, "unresolved callee")
         last = d.split("::")[-1]
+        if last == "box_assume_init_into_vec_unsafe":
+            inner = peel(n["args"][0])
+            if inner.get("k") == "Call" and len(inner["args"]) == 2 and peel(inner["args"][1]).get("k") == "Array":
+                return [self.ev(x) for x in peel(inner["args"][1])["es"]]
+            raise Unsupported(n, "vec! shape")
+        if d in self.lazy_hooks:
+            return self.lazy_hooks[d](self, n)
         if d in self.call_hooks:
             return self.call_hooks[d](self, n, [self.ev(a) for a in n["args"]])
         if last in self.call_hooks:
